@@ -184,25 +184,61 @@ pub fn site_builder(cfg: &Config) -> site::reader::Builder {
     site::reader::Builder::default().set_samples(samples).set_project(project)
 }
 
-pub fn parse_logs(logs: &[(log::Level, String)]) -> (Option<(usize, usize)>, Vec<String>) {
-    let mut summary = None;
-    let mut sites = vec![];
-    for (_, m) in logs {
-        if let Some(rest) = m.strip_prefix("Skipped ") {
-            if let Some((frac, _)) = rest.split_once(" sites") {
-                if let Some((a, b)) = frac.split_once('/') {
-                    if let (Ok(a), Ok(b)) = (a.parse(), b.parse()) {
-                        summary = Some((a, b));
+/// Reads the skip accounting off the tool's messages, tolerant of wording: the summary is the
+/// first "<a>/<b>" fraction on a line that mentions "skipped"; a skipped site is a
+/// "contig:position" token on a line that mentions "skipping".
+pub fn parse_skip_text<'a>(lines: impl Iterator<Item = &'a str>) -> (Option<(usize, usize)>, Vec<String>) {
+    fn fraction(line: &str) -> Option<(usize, usize)> {
+        let b = line.as_bytes();
+        for (i, &c) in b.iter().enumerate() {
+            if c == b'/' {
+                let mut s = i;
+                while s > 0 && b[s - 1].is_ascii_digit() {
+                    s -= 1;
+                }
+                let mut e = i + 1;
+                while e < b.len() && b[e].is_ascii_digit() {
+                    e += 1;
+                }
+                if s < i && e > i + 1 {
+                    if let (Ok(x), Ok(y)) = (line[s..i].parse(), line[i + 1..e].parse()) {
+                        return Some((x, y));
                     }
                 }
             }
-        } else if let Some(rest) = m.strip_prefix("Skipping site '") {
-            if let Some((site, _)) = rest.split_once('\'') {
-                sites.push(site.to_string());
+        }
+        None
+    }
+    fn site(line: &str) -> Option<String> {
+        // a token <name>:<digits>, with or without quotes around it
+        for tok in line.split(|c: char| c.is_whitespace() || c == '\'' || c == '"' || c == '`') {
+            let tok = tok.trim_matches(|c: char| c == '.' || c == ',' || c == ';' || c == '(' || c == ')');
+            if let Some((name, pos)) = tok.rsplit_once(':') {
+                if !name.is_empty() && !pos.is_empty() && pos.bytes().all(|c| c.is_ascii_digit()) {
+                    return Some(tok.to_string());
+                }
+            }
+        }
+        None
+    }
+    let mut summary = None;
+    let mut sites = vec![];
+    for line in lines {
+        let lower = line.to_ascii_lowercase();
+        if lower.contains("skipped") && summary.is_none() {
+            summary = fraction(line);
+        }
+        if lower.contains("skipping site") || (lower.contains("skipping") && !lower.contains("sample")) {
+            if let Some(s) = site(line) {
+                sites.push(s);
             }
         }
     }
     (summary, sites)
+}
+
+pub fn parse_logs(logs: &[(log::Level, String)]) -> (Option<(usize, usize)>, Vec<String>) {
+    parse_skip_text(logs.iter().map(|(_, m)| m.as_str()))
 }
 
 /// `create` over a genotype reader (the generic tail shared by all L1 entry points).
